@@ -160,11 +160,35 @@ pub fn gen_spec(seed: u64, focus: &str, tier: &str) -> RunSpec {
         explicit: None,
     };
     let mut cfg = cfg;
+    // Combinations with a recorded known finding (known_findings.jsonl) are only generated in a
+    // small share of runs ("probe runs"), so that they stay demonstrated without drowning
+    // everything else.
+    cfg.kf_probe = rng.chance(1, 40);
+    if !cfg.kf_probe && cfg!(feature = "var_c") && matches!(cfg.plan.as_str(), "StickyImmix" | "MarkCompact") {
+        cfg.plan = "Immix".to_string();
+    }
     if cfg.plan == "NoGC" {
         // A stress GC under NoGC reaches `unreachable!("GC triggered in nogc")` by design.
         cfg.stress_factor = None;
     }
-    let programs = (0..nmut).map(|_| gen_program(&mut wl, nops, focus)).collect();
+    let mut programs: Vec<Vec<Op>> = (0..nmut).map(|_| gen_program(&mut wl, nops, focus)).collect();
+    if !cfg.kf_probe {
+        for p in programs.iter_mut() {
+            for op in p.iter_mut() {
+                if let Op::Alloc { sem, nrefs, .. } = op {
+                    // KF-MC-NONMOVING: MarkCompact re-prepares the non-moving space mid-GC.
+                    if cfg.plan == "MarkCompact" && *sem == SEM_NONMOVING {
+                        *sem = SEM_DEFAULT;
+                    }
+                    // KF-COMPRESSOR-REFS: references held in immortal / non-moving objects are
+                    // not forwarded by the Compressor.
+                    if cfg.plan == "Compressor" && matches!(*sem, SEM_IMMORTAL | SEM_NONMOVING) {
+                        *nrefs = 0;
+                    }
+                }
+            }
+        }
+    }
     RunSpec {
         variant: variant_name().to_string(),
         focus: focus.to_string(),
